@@ -40,3 +40,23 @@ old['units'] = new_units
 old['locals'] = locs
 old['_comment_locals'] = 'local names (per unit) the rules were written against; a local that is NOT listed is a new name: if it is a plain alias of an attribute chain it is propagated into its uses before analysis (sa/alias.py)'
 json.dump(old, open(p, 'w'), indent=0, ensure_ascii=False)
+# attribute names per class (new attributes are new state: sa/memo.py)
+attrs = {}
+for fn_ in sorted(os.listdir(os.path.join(root, 'bubus'))):
+    if not fn_.endswith('.py'):
+        continue
+    tree = ast.parse(open(os.path.join(root, 'bubus', fn_), encoding='utf-8').read())
+    for cls in [n for n in ast.walk(tree) if isinstance(n, ast.ClassDef)]:
+        names = set()
+        for st in cls.body:
+            if isinstance(st, (ast.Assign, ast.AnnAssign)):
+                for t in (st.targets if isinstance(st, ast.Assign) else [st.target]):
+                    if isinstance(t, ast.Name):
+                        names.add(t.id)
+        for n in ast.walk(cls):
+            if isinstance(n, ast.Attribute) and isinstance(n.ctx, ast.Store) and isinstance(n.value, ast.Name) and n.value.id in ('self', 'cls'):
+                names.add(n.attr)
+        attrs[cls.name] = sorted(names)
+old = json.load(open(p))
+old['attrs'] = attrs
+json.dump(old, open(p, 'w'), indent=0, ensure_ascii=False)
